@@ -4,5 +4,5 @@ META = {
     "level": "proof",
     "trusted_base": ["equality of the batch result with the single-member result is a term-level statement over the same input symbols: position independence and independence of other members follow because the single-member term mentions that member's symbols only"],
     "assumptions": ["batches of 2 and 3 members and nested (2,1) leading dimensions; (B, 2*n) for the block-grouping clause; configuration grid as in C01"],
-    "out_of_reach": ["BerlekampMasseyDecoder and ReedMullerDecoder (majority logic) concretise every received bit: bounded stand-in (seeded random batches of 1..6 members incl. special members, permutations, layouts)", "modulators/demodulators and power constraints are covered by the per-property contracts C05/C06/C08 which use batched layouts; their batch-purity clauses are stated there"],
+    "out_of_reach": ["BerlekampMasseyDecoder and ReedMullerDecoder (majority logic) concretise every received bit: bounded stand-in (seeded random batches of 1..6 members incl. special members, permutations, layouts, six input dtypes)", "soft-input decoders beyond the tiny symbolic instances (Wagner k <= 4, SC N <= 8, soft RM(1,2); every sign decision forks and a batch of two squares the path count): bounded stand-in C20.soft_decoders_bounded over Wagner, SC, polar BP, LDPC BP / min-sum, soft RM", "demodulators of constellations with more than 8 (thorough 16) points and modulators with more than 64 points: bounded stand-ins C20.modulators_bounded / C20.demodulators_bounded", "schemes with memory (DPSK, OQPSK, pi/4-QPSK) are not per-sample pure by design; their batch behaviour is part of C05", "power constraints: bounded stand-in C20.constraints_bounded (the symbolic per-item clauses are C08's)"],
 }
